@@ -675,6 +675,9 @@ ROUNDS = [None, None, 0.1, 0.5, 1.0, 2.0, 0.25]
 # boundary values of the public arguments (int and float spellings), values needing more than 6 decimals, scores next to a threshold
 SCORES_X = SCORES + [0.7500001, 1e-07, 0.9999999]
 THRESHOLDS_X = [0, 0.0, 1, 1.0, 0.7500001, 1e-07, 0.123456789]
+# doubles with 16-17 significant digits (a quantile of the clerical scores, a score copied from a row): as a plain decimal literal DuckDB
+# reads each of these as a DECIMAL that converts to a NEIGHBOURING double, so a label whose score EQUALS the threshold changes sides
+FULL_PRECISION = [0.9452706955539223, 0.42451918914251396, 0.12380196114964559, 0.22323896460701453, 0.9762551055929201, 0.20595871281932654]
 ROUNDS_X = [1, 2, 0.05, 0.125, 5.0, 10, 0.001, 0.3]
 SRC_VARIANTS = {2: [["tb", "ta"], ["Z", "a"], ["left_table", "R_table"]], 3: [["tb", "tc", "ta"], ["Z", "a", "B"], ["t3", "t1", "t2"]]}
 STR_LABELS = {0: "", 1: "A", 2: "a", 3: "B", 7: "only"}
@@ -793,6 +796,13 @@ def gen_case(rng: random.Random, force: dict | None = None):
                 a, b = b, a  # either id orientation
             s = rng.choice([0.0, 1.0]) if binary else rng.choice(scores)
             case["labels"].append([[tix[a["source_dataset"]], a["unique_id"]], [tix[b["source_dataset"]], b["unique_id"]], s])
+        if not binary and case["labels"] and "threshold" not in force and rng.random() < 0.12:
+            # labels whose score is EXACTLY the (full-precision) threshold: clerical positives (>=), and no prediction error by the score
+            t = rng.choice(FULL_PRECISION)
+            case["threshold"] = case["err_threshold"] = t
+            for lab in rng.sample(case["labels"], rng.randint(1, min(4, len(case["labels"])))):
+                lab[2] = t
+            case["tag"] = "score-equals-full-precision-threshold"
         if force.get("dangling") and case["labels"]:
             t0, u0 = case["labels"][0][0]
             case["labels"].append([[t0, u0], [t0, "nope" if idtype == "str" else 99], 1.0])
